@@ -1,9 +1,133 @@
-/- Driver operations for C04 (stub: to be filled by the property's model). -/
+/- Driver operations for C04: the schedule automata of `Model/Schedule.lean` run on tokens. -/
 import PrecondVerif.Kit.Proto
+import PrecondVerif.Model.Schedule
 
 namespace PrecondVerif.Drv.C04
-open Lean PrecondVerif.Proto
+open Lean PrecondVerif.Proto PrecondVerif.Schedule
 
-def ops : List Op := []
+def optTokJson : Option Tok → Json
+  | none => Json.null
+  | some l => natsToJson l
+
+def getBoolsD (j : Json) (k : String) (n : Nat) : R (List Bool) :=
+  match j.getObjVal? k with
+  | .ok v => asListOf asBool v
+  | .error _ => pure (List.replicate n true)
+
+/-- the interval function of a request: `"pi": n` or `"sched": {"s": "p/q", "e": "p/q", "decay": ["p/q", …]}` -/
+def getInterval (j : Json) : R Interval :=
+  match j.getObjVal? "sched" with
+  | .ok (.null) | .error _ => do
+      let pi ← getNat j "pi"
+      pure (.fixed pi)
+  | .ok sj => do
+      let s ← getRat sj "s"
+      let e ← getRat sj "e"
+      let ds ← getRats sj "decay"
+      let arr := ds.toArray
+      pure (.scheduled s e (fun t => arr.getD t (arr.getD (arr.size - 1) 1)))
+
+abbrev DSTok := DSState Tok (Option Tok) (Option (Tok × Bool)) Unit Unit
+
+def dsTraceJson (cfg : DSCfg) (accept : List Bool) (T : Nat) : Json :=
+  let rec go (t : Nat) (fuel : Nat) (s : DSTok) (acc : Array Json) : Array Json :=
+    match fuel with
+    | 0 => acc
+    | fuel + 1 =>
+      let inp : DSInp Nat Bool := { grad := t, fault := accept.getD t true }
+      let r := dsStep tokKernels cfg s inp
+      let s' := r.1
+      let itv := cfg.interval s.count
+      let used := if cfg.sharded then s.precond else s'.precond
+      let o := obj [
+        ("count", toJson s.count), ("count_after", toJson s'.count),
+        ("interval", toJson itv),
+        ("perform_stats", Json.bool (dsPerformStats cfg.si s.count)),
+        ("perform_precond", Json.bool (dsPerformPrecond itv s.count)),
+        ("stats", natsToJson s'.stats),
+        ("stats_changed", Json.bool (s'.stats != s.stats)),
+        ("precond", optTokJson s'.precond),
+        ("precond_changed", Json.bool (s'.precond != s.precond)),
+        ("metrics_changed", Json.bool (s'.metrics != s.metrics)),
+        ("used", optTokJson used),
+        ("run_shampoo", Json.bool (decide (s.count ≥ cfg.start))),
+        ("sel", ratToJson r.2)]
+      go (t + 1) fuel s' (acc.push o)
+  Json.arr (go 0 T tokInit #[])
+
+abbrev TFTok := GraftState (TFState Tok (Option Tok)) Unit
+
+def tfTraceJson (sf pf start : Nat) (masked : Bool) (T : Nat) : Json :=
+  let step := graftStep (tfShampooStep tokTF sf pf) (fun (_ : Unit) (_ : Nat) => ((), false))
+    (fun base _ => base) start masked
+  let rec go (t : Nat) (fuel : Nat) (s : TFTok) (acc : Array Json) : Array Json :=
+    match fuel with
+    | 0 => acc
+    | fuel + 1 =>
+      let r := step s t
+      let s' := r.1
+      let o := obj [
+        ("count", toJson s.count), ("count_after", toJson s'.count),
+        ("inner_count_after", toJson s'.direction.count),
+        ("perform_stats", Json.bool (s.count % sf == 0)),
+        ("perform_precond", Json.bool (s.count % pf == 0)),
+        ("stats", natsToJson s'.direction.stats),
+        ("stats_changed", Json.bool (s'.direction.stats != s.direction.stats)),
+        ("precond", optTokJson s'.direction.roots),
+        ("precond_changed", Json.bool (s'.direction.roots != s.direction.roots)),
+        ("preconditioned", Json.bool r.2)]
+      go (t + 1) fuel s' (acc.push o)
+  Json.arr (go 0 T { count := 0, direction := { count := 0, stats := [], roots := none }, norm := () } #[])
+
+abbrev SKTok := GraftState (SKState Tok) Unit
+
+def skTraceJson (f start : Nat) (masked : Bool) (T : Nat) : Json :=
+  let step := graftStep (sketchyStep tokSK f) (fun (_ : Unit) (_ : Nat) => ((), false))
+    (fun base _ => base) start masked
+  let rec go (t : Nat) (fuel : Nat) (s : SKTok) (acc : Array Json) : Array Json :=
+    match fuel with
+    | 0 => acc
+    | fuel + 1 =>
+      let r := step s t
+      let s' := r.1
+      let o := obj [
+        ("count", toJson s.count), ("count_after", toJson s'.count),
+        ("inner_count_after", toJson s'.direction.count),
+        ("perform", Json.bool (s.count % f == 0)),
+        ("sketch", natsToJson s'.direction.sketch),
+        ("sketch_changed", Json.bool (s'.direction.sketch != s.direction.sketch)),
+        ("preconditioned", Json.bool r.2)]
+      go (t + 1) fuel s' (acc.push o)
+  Json.arr (go 0 T { count := 0, direction := { count := 0, sketch := [] }, norm := () } #[])
+
+def ops : List Op := [
+  ("schedule", fun j => do
+    let s ← getRat j "s"
+    let e ← getRat j "e"
+    let ds ← getRats j "decay"
+    pure (obj [("intervals", natsToJson (ds.map (scheduledInterval s e)))])),
+  ("ds_trace", fun j => do
+    let si ← getNat j "si"
+    let itv ← getInterval j
+    let start ← getNat j "start"
+    let T ← getNat j "T"
+    let sharded ← getBool j "sharded"
+    let accept ← getBoolsD j "accept" T
+    let cfg : DSCfg := { si := si, interval := itv.at, start := start, sharded := sharded }
+    pure (obj [("steps", dsTraceJson cfg accept T)])),
+  ("tf_trace", fun j => do
+    let sf ← getNat j "sf"
+    let pf ← getNat j "pf"
+    let start ← getNat j "start"
+    let T ← getNat j "T"
+    let masked ← getBool j "masked"
+    pure (obj [("steps", tfTraceJson sf pf start masked T)])),
+  ("sk_trace", fun j => do
+    let f ← getNat j "f"
+    let start ← getNat j "start"
+    let T ← getNat j "T"
+    let masked ← getBool j "masked"
+    pure (obj [("steps", skTraceJson f start masked T)]))
+]
 
 end PrecondVerif.Drv.C04
